@@ -66,6 +66,7 @@ def generate(st):
         'use_expiry': sw.random() < 0.85,
         'dict_output': sw.random() < 0.25,
         'output_is_input': sw.choice([True, True, True, False]),
+        'col': sw.choice(['data', 'data', 'data', 'out']),
     }
     pool = KEYPOOL_I if cfg['keys_int'] else KEYPOOL_S
 
@@ -271,6 +272,7 @@ def execute(trace, ctx=None):
     SimClock.reset(datetime.datetime.fromisoformat(cfg['origin']))
     ledger = []
     dict_mode = bool(cfg.get('dict_output'))
+    col = 'data' if dict_mode else cfg.get('col', 'data')      # name of the output column and of the keyword carrying previous output
     f = _make_f(params, ledger, dict_mode)
     kwargs = {'on': list(on)}
     if cfg.get('defaults') is not None:
@@ -281,6 +283,8 @@ def execute(trace, ctx=None):
         kwargs['include_inputs'] = True
     if cfg.get('output_is_input', True) is False:
         kwargs['output_is_input'] = False       # f is not shown its own previous output (ours never asks for it)
+    if col != 'data':
+        kwargs['col'] = col
     p = perdictable(f, **kwargs)
     # join defaults as the library documents them: explicit `defaults`, else f's own parameter defaults
     if cfg.get('defaults') is not None:
@@ -386,11 +390,11 @@ def execute(trace, ctx=None):
                 if len(keep) < len(prev):
                     res.fault('state_loss')
                 supplied = {kt: prev[kt] for kt in keep}
-                call['data'] = table(on, [list(kt) for kt in keep], 'data', [prev[kt] for kt in keep])
+                call[col] = table(on, [list(kt) for kt in keep], col, [prev[kt] for kt in keep])
                 if dict_mode:
                     call['aux'] = table(on, [list(kt) for kt in keep], 'aux', ['A' + prev[kt] if isinstance(prev[kt], str) else prev[kt] for kt in keep])
             elif has_table and data_mode == 'none':
-                call['data'] = None
+                call[col] = None
                 if dict_mode:
                     call['aux'] = None
                 if prev:
@@ -471,7 +475,7 @@ def execute(trace, ctx=None):
             if not is_dictable_like(out):
                 raise Violation('result-shape', 'keyed call returned %s instead of a table' % type(out).__name__, k)
             got_rows = list(out)
-            if sorted(c for c in out.keys() if c in on) != sorted(on) or 'data' not in out.keys():
+            if sorted(c for c in out.keys() if c in on) != sorted(on) or col not in out.keys():
                 raise Violation('result-shape', 'result columns %s lack the keys %s or the value column' % (list(out.keys()), on), k)
             got_keys = [tuple(r[c] for c in on) for r in got_rows]
             exp_keys = [tuple(kd[c] for c in on) for kd, _ in mrows]
@@ -494,7 +498,7 @@ def execute(trace, ctx=None):
             klass = []
             for kd, vals in mrows:
                 kt = tuple(kd[c] for c in on)
-                got = byrow[kt]['data']
+                got = byrow[kt][col]
                 args = {q['name']: vals.get(q['name'], q.get('default')) for q in params}
                 e = exp_map.get(kt, exp_scalar)
                 if e is None:
